@@ -243,6 +243,12 @@ def run_case(case):
             acc4 += p
         _same(c, _fields(acc4), got, "split_iadd", f"blocks {blocks} added with += into an empty GMMStats", tags, scale)
         c.check([_snap(p) for p in cp4] == snaps, "iadd_rhs", f"+= into an empty accumulator modified a right operand (blocks {blocks})", tags)
+        if len(pieces) > 1:
+            acc6 = GMMStats(C, D) + pieces[0]  # a sum started from an empty container and continued in place
+            for p in pieces[1:]:
+                acc6 += p
+            _same(c, _fields(acc6), got, "split_iadd", f"blocks {blocks}: empty + first block, then += the rest", tags, scale)
+            c.check([_snap(p) for p in pieces] == snaps, "add_pure", f"continuing a sum in place modified the first operand of + (blocks {blocks})", tags)
         acc5 = GMMStats(C, D)
         for p in pieces:
             acc5 = acc5 + p
